@@ -137,6 +137,7 @@ class ModuleInfo:
         self.classes = {}
         self.imports = {}  # local name -> ('module', dotted) | ('from', module, name)
         self.constants = {}
+        self.const_exprs = {}
         pkg = name if path.endswith("__init__.py") else name.rsplit(".", 1)[0]
         for st in self.tree.body:
             if isinstance(st, ast.FunctionDef):
@@ -158,7 +159,9 @@ class ModuleInfo:
                 try:
                     self.constants[st.targets[0].id] = ast.literal_eval(st.value)
                 except Exception:
-                    pass
+                    # a module-level display over names (e.g. {"mutation_id": str}): kept as an expression, evaluated by the interpreter on use
+                    if isinstance(st.value, (ast.Dict, ast.Tuple, ast.List, ast.Set)):
+                        self.const_exprs[st.targets[0].id] = st.value
 
     def resolve(self, name, _seen=None):
         if name in self.functions:
